@@ -1,0 +1,42 @@
+//go:build verif
+
+package internal
+
+import (
+	"context"
+
+	"github.com/oxia-db/oxia/proto"
+)
+
+// VerifStreamWrapper exposes the client write-stream wrapper (streamWrapper) to the verification
+// harness over a stream supplied by the harness. It starts the same two goroutines as
+// newStreamWrapper, but under a recover() so that a panic of the real code is reported to the
+// harness instead of killing it. No logic of its own.
+type VerifStreamWrapper struct {
+	sw *streamWrapper
+}
+
+// onExit is called with the name of the goroutine ("responses" | "closed") when it returns,
+// and with the recovered value if it panicked (nil otherwise).
+func NewVerifStreamWrapper(stream proto.OxiaClient_WriteStreamClient, onExit func(which string, panicked any)) *VerifStreamWrapper {
+	sw := &streamWrapper{stream: stream}
+	run := func(which string, f func()) {
+		defer func() { onExit(which, recover()) }()
+		f()
+	}
+	go run("responses", sw.handleResponses)
+	go run("closed", sw.handleStreamClosed)
+	return &VerifStreamWrapper{sw: sw}
+}
+
+func (v *VerifStreamWrapper) Send(ctx context.Context, req *proto.WriteRequest) (*proto.WriteResponse, error) {
+	return v.sw.Send(ctx, req)
+}
+
+func (v *VerifStreamWrapper) Failed() bool { return v.sw.failed.Load() }
+
+func (v *VerifStreamWrapper) Pending() int {
+	v.sw.Lock()
+	defer v.sw.Unlock()
+	return len(v.sw.pendingRequests)
+}
